@@ -38,6 +38,9 @@ type c13GResp struct {
 type c13GAttempt struct {
 	fields  []c13Field // request header block in wire order
 	payload string     // concatenated DATA payloads
+	frames  []string   // the non-empty DATA payloads, frame by frame (HTTP/2 peer only)
+	trailer []c13Field // request trailer block (HTTP/2 peer only)
+	live    *c13Live   // pacing of an interactive exchange (lane live), nil otherwise
 }
 
 type c13GScenario struct {
@@ -174,7 +177,10 @@ func c13GenGScenario(s *verifh.Session, flow, feature string, maxBody int) *c13G
 			n = r.Intn(3)
 		}
 		sc.body = verifh.RandBytes(r, n, "abcdefgh\r\n{}:\"0123456789")
-		sc.bodyVia = verifh.Pick(r, []string{"bytes", "bytes", "reader"})
+		sc.bodyVia = verifh.Pick(r, []string{"bytes", "bytes", "reader", "multipart"})
+		if sc.bodyVia == "multipart" {
+			sc.method = "POST"
+		}
 	}
 	bodyKind := verifh.Pick(r, []string{"plain", "plain", "gzip", "gbk", "text"})
 	final := 200
@@ -182,6 +188,17 @@ func c13GenGScenario(s *verifh.Session, flow, feature string, maxBody int) *c13G
 		final = verifh.Pick(r, []int{201, 204, 404})
 	}
 	switch flow {
+	case "head":
+		// HEAD: a content-length and no DATA (END_STREAM on the header block)
+		sc.method, sc.body, sc.bodyVia = "HEAD", "", ""
+		fields := []c13Field{{":status", strconv.Itoa(final)}, {"x-verif", "c13"}, {"content-type", "text/plain"}, {"content-length", strconv.Itoa(1 + r.Intn(100000))}}
+		if feature == "many" {
+			for i := 0; i < 60+r.Intn(60); i++ {
+				fields = append(fields, c13Field{"x-h" + strconv.Itoa(i%30), verifh.RandBytes(r, r.Intn(40), "abcdef0123")})
+			}
+		}
+		sc.scripts[sc.path] = []c13GResp{{fields: fields, pieces: 1}}
+		sc.order = []string{sc.path}
 	case "single":
 		sc.scripts[sc.path] = []c13GResp{c13GenGResp(s, final, feature, bodyKind, maxBody)}
 		sc.order = []string{sc.path}
@@ -205,6 +222,22 @@ type c13GScripts struct {
 	scripts  map[string][]c13GResp
 	hits     map[string]int
 	captured []c13GAttempt
+	lives    map[string]*c13Live
+}
+
+func (p *c13GScripts) liveFor(fields []c13Field) *c13Live {
+	p.mu.Lock()
+	defer p.mu.Unlock()
+	for _, f := range fields {
+		if f.name == ":path" {
+			path := f.value
+			if i := strings.IndexByte(path, '?'); i >= 0 {
+				path = path[:i]
+			}
+			return p.lives[path]
+		}
+	}
+	return nil
 }
 
 func (p *c13GScripts) install(sc *c13GScenario) {
@@ -282,6 +315,16 @@ type c13H2Peer struct {
 	ln    net.Listener
 	cmu   sync.Mutex
 	conns []net.Conn
+	// flow control offered to the next connections: 0 = generous (the client never waits for
+	// credit); otherwise SETTINGS_INITIAL_WINDOW_SIZE = window and every received DATA frame is
+	// acknowledged with WINDOW_UPDATEs in `parts` pieces, so that uploads are cut by flow control
+	window, parts int
+}
+
+func (p *c13H2Peer) setFlow(window, parts int) {
+	p.cmu.Lock()
+	p.window, p.parts = window, parts
+	p.cmu.Unlock()
 }
 
 func c13NewH2Peer(t testing.TB) *c13H2Peer {
@@ -324,9 +367,16 @@ func (p *c13H2Peer) serve(c net.Conn) {
 	fr.ReadMetaHeaders = hpack.NewDecoder(4096, nil)
 	fr.MaxHeaderListSize = 1 << 24
 	fr.SetMaxReadFrameSize(1 << 20)
-	// generous windows: the client must never wait for flow-control credit
-	fr.WriteSettings(http2.Setting{ID: http2.SettingInitialWindowSize, Val: 1 << 28}, http2.Setting{ID: http2.SettingMaxHeaderListSize, Val: 1 << 24})
-	fr.WriteWindowUpdate(0, 1<<28)
+	p.cmu.Lock()
+	window, parts := p.window, p.parts
+	p.cmu.Unlock()
+	if window == 0 {
+		// generous windows: the client must never wait for flow-control credit
+		fr.WriteSettings(http2.Setting{ID: http2.SettingInitialWindowSize, Val: 1 << 28}, http2.Setting{ID: http2.SettingMaxHeaderListSize, Val: 1 << 24})
+		fr.WriteWindowUpdate(0, 1<<28)
+	} else {
+		fr.WriteSettings(http2.Setting{ID: http2.SettingInitialWindowSize, Val: uint32(window)}, http2.Setting{ID: http2.SettingMaxHeaderListSize, Val: 1 << 24})
+	}
 	var hbuf bytes.Buffer
 	enc := hpack.NewEncoder(&hbuf)
 	open := map[uint32]*c13GAttempt{}
@@ -359,8 +409,19 @@ func (p *c13H2Peer) serve(c net.Conn) {
 			writeBlock(id, blk, false)
 		}
 		hasTrailers := len(resp.trailers) > 0
-		if resp.wire == "" && !hasTrailers {
+		if resp.wire == "" && !hasTrailers && att.live == nil {
 			writeBlock(id, resp.fields, true)
+			return
+		}
+		if att.live != nil {
+			// interactive download: one DATA frame per piece, the next one only after the caller
+			// has read the previous one
+			writeBlock(id, resp.fields, false)
+			for j, piece := range att.live.down {
+				fr.WriteData(id, false, []byte(piece))
+				att.live.waitRead(j)
+			}
+			fr.WriteData(id, true, nil)
 			return
 		}
 		writeBlock(id, resp.fields, false)
@@ -409,6 +470,11 @@ func (p *c13H2Peer) serve(c net.Conn) {
 				for _, hf := range f.Fields {
 					att.fields = append(att.fields, c13Field{hf.Name, hf.Value})
 				}
+				att.live = p.liveFor(att.fields)
+			} else {
+				for _, hf := range f.Fields {
+					att.trailer = append(att.trailer, c13Field{hf.Name, hf.Value})
+				}
 			}
 			if f.StreamEnded() {
 				respond(f.StreamID)
@@ -416,6 +482,25 @@ func (p *c13H2Peer) serve(c net.Conn) {
 		case *http2.DataFrame:
 			if att := open[f.StreamID]; att != nil {
 				att.payload += string(f.Data())
+				if len(f.Data()) > 0 {
+					att.frames = append(att.frames, string(f.Data()))
+				}
+				if window != 0 && len(f.Data()) > 0 && !f.StreamEnded() {
+					// hand the credit back in `parts` uneven pieces
+					left := len(f.Data())
+					for i := parts; i >= 1 && left > 0; i-- {
+						k := left
+						if i > 1 {
+							k = (left + 2) / 3
+						}
+						fr.WriteWindowUpdate(f.StreamID, uint32(k))
+						fr.WriteWindowUpdate(0, uint32(k))
+						left -= k
+					}
+				}
+				if att.live != nil {
+					att.live.gotUpload(len(f.Data()))
+				}
 				if f.StreamEnded() {
 					respond(f.StreamID)
 				}
@@ -461,6 +546,8 @@ func c13RunG(scripts *c13GScripts, mkClient func() *Client, baseURL string, sc *
 	case "reader":
 		body := sc.body
 		rq.SetBody(func() (io.ReadCloser, error) { return io.NopCloser(strings.NewReader(body)), nil })
+	case "multipart":
+		c13Multipart(cl, rq, sc.body)
 	}
 	if cfg != nil {
 		cfg.applyRequest(rq, out.log)
@@ -471,6 +558,15 @@ func c13RunG(scripts *c13GScripts, mkClient func() *Client, baseURL string, sc *
 	}
 	resp, err := rq.Send(sc.method, url)
 	out.res = c13ResultOf(resp, err)
+	if cfg != nil && cfg.eachReq > 0 && resp != nil {
+		d := resp.Dump()
+		out.log.mu.Lock()
+		out.log.events = append(out.log.events, c13Event{30, d})
+		out.log.mu.Unlock()
+	}
+	if cfg != nil {
+		cfg.readBack(out.log)
+	}
 	out.cl = cl
 	cl.CloseIdleConnections()
 	if cl.t3 != nil {
@@ -519,8 +615,29 @@ func c13GPending(id, human string, sc *c13GScenario, cfg c13DumpCfg, off, on c13
 			parts = append(parts, tk)
 		}
 	}
-	p.modelLine = "c13exp " + cfg.cl.modelArg() + " " + cfg.rq.modelArg() + " " + verifh.HexList(parts)
+	p.modelLine = c13ExpLine(&cfg, sc.retry, len(on.attempts), parts)
 	return p
+}
+
+// c13GFlat: every 8th pair of the HTTP/2 and HTTP/3 lanes reads its dump back as one string
+// (Response.Dump() after EnableDumpEachRequest…, or a dump file), retries and redirects included.
+func c13GFlat(t testing.TB, s *verifh.Session, cnt c13Counter, c int, seq *int, fileBudget *int, cfg *c13DumpCfg, sc *c13GScenario) {
+	if c%8 != 3 || sc.class != "" || strings.HasSuffix(sc.name, "/trailer") {
+		// (response trailers are dumped by the read loop while the caller's goroutine dumps the
+		// body: in a flat read-back their writes interleave, there is no single expected string)
+		return
+	}
+	*seq++
+	c13FlatVariant(t, cfg, *seq, fileBudget, func(k string) { cnt.add(s, k) })
+	if len(sc.body) > 1500 {
+		sc.body = sc.body[:1500]
+	}
+	if sc.bodyVia == "reader" || sc.bodyVia == "multipart" {
+		sc.bodyVia = "bytes"
+	}
+	if sc.retry {
+		cnt.add(s, "flat-dump-after-retry")
+	}
 }
 
 // c13GenCfg draws the dump configuration of pair number c.
@@ -566,10 +683,11 @@ func TestVerif_C13_e2eh2(t *testing.T) {
 	defer peer.close()
 	mk := func() *Client { return C().EnableForceHTTP2().EnableH2C() }
 	base := "http://" + peer.ln.Addr().String()
-	flows := []string{"single", "single", "single", "retry", "redirect"}
+	flows := []string{"single", "single", "single", "retry", "redirect", "single", "head"}
 	features := []string{"", "", "", "1xx", "long", "many", "trailer", "empty-value"}
 	n := verifh.N(160, 4000)
 	reqAsync := verifh.N(2, 40)
+	flatSeq, fileBudget := 0, verifh.N(6, 80)
 	var pend []*c13Pending
 	for c := 0; c < n; c++ {
 		flow := flows[c%len(flows)]
@@ -577,20 +695,41 @@ func TestVerif_C13_e2eh2(t *testing.T) {
 		sc := c13GenGScenario(s, flow, feature, 100000)
 		cfg, level, subset := c13GenCfg(s, c, &reqAsync, sc)
 		cfg.clone = false // Client.Clone() does not carry the h2c dial setup of this lane (clone fidelity is C19's subject)
+		c13GFlat(t, s, cnt, c, &flatSeq, &fileBudget, &cfg, sc)
 		timeout := 5 * time.Second
 		margin := 3 * time.Second
 		if cfg.rq != nil && cfg.rq.async {
 			timeout, margin = 700*time.Millisecond, 800*time.Millisecond
 		}
 		viaSet := r.Intn(2) == 0
+		// flow control: a third of the uploads meet a peer with a small stream window that hands
+		// credit back in uneven pieces, so that body reads are cut into several DATA frames
+		window, parts := 0, 1
+		if sc.body != "" && c%3 == 1 {
+			window = verifh.Pick(r, []int{1, 7, 100, 1000, 5000, 16384, 40000})
+			if min := len(sc.body)/50 + 1; window < min {
+				window = min
+			}
+			parts = 1 + r.Intn(3)
+			cnt.add(s, "tight-flow-control")
+			// the request body goes to a writer of its own, so that its writes can be counted
+			if d := cfg.cl; d != nil && d.base == 10 {
+				d.routing, d.flags[1] = 1, true
+			} else if d := cfg.rq; d != nil && d.base == 20 {
+				d.routing, d.flags[1] = 1, true
+			}
+		}
+		peer.setFlow(window, parts)
 		off, _ := c13GuardG(timeout+margin, func() c13GRunOut { return c13RunG(&peer.c13GScripts, mk, base, sc, nil, false, timeout, cfg.clone) })
 		on, hung := c13GuardG(timeout+margin, func() c13GRunOut { return c13RunG(&peer.c13GScripts, mk, base, sc, &cfg, viaSet, timeout, cfg.clone) })
+		peer.setFlow(0, 1)
 		p := c13GPending(fmt.Sprintf("h2 #%d %s %s %s", c, sc.name, cfg.String(), sc.method),
-			fmt.Sprintf("%s %s body=%dB via %q; %s; result %s", sc.method, sc.name, len(sc.body), sc.bodyVia, cfg.String(), c13Clip(off.res.String(), 160)),
+			fmt.Sprintf("%s %s body=%dB via %q window=%d/%d; %s; result %s", sc.method, sc.name, len(sc.body), sc.bodyVia, window, parts, cfg.String(), c13Clip(off.res.String(), 160)),
 			sc, cfg, off, on, true)
 		if hung {
 			p.why = append(p.why, "the call with dump on never returned")
 		}
+		c13FrameExtras(p, &cfg, on.attempts, func() { cnt.add(s, "frame-granularity-checked") }, func() { cnt.add(s, "upload-split-into-frames") })
 		cnt.add(s, "flow="+flow)
 		cnt.add(s, "feature="+feature)
 		cnt.add(s, "level="+level)
@@ -611,12 +750,65 @@ func TestVerif_C13_e2eh2(t *testing.T) {
 		}
 	}
 	c13Finish(t, s, pend)
-	for _, must := range []string{"flow=retry", "flow=redirect", "feature=long", "feature=trailer", "feature=many", "feature=1xx", "level=both", "req-body-via-reader", "baseline-ok-h2"} {
+	for _, must := range []string{"flow=retry", "flow=redirect", "feature=long", "feature=trailer", "feature=many", "feature=1xx", "level=both", "req-body-via-reader", "req-body-via-multipart", "flow=head", "baseline-ok-h2", "via-each-request", "via-dump-all-to-file", "via-dump-to-file", "flat-dump-after-retry", "tight-flow-control", "frame-granularity-checked", "upload-split-into-frames"} {
 		if cnt[must] == 0 {
 			t.Errorf("generator never reached bucket %q", must)
 		}
 	}
 	s.Finish()
+}
+
+// c13FrameExtras adds the frame-level check of the HTTP/2 request-body dump: the Lean model
+// (dataDump over the upload and the flow-control schedule the peer observed) gives the DATA
+// payloads; the peer must have received exactly those frames, and a dumper with a writer of its
+// own for the request body must have been handed exactly one write per frame with that payload
+// (DumpRequestBody(data) once per WriteData), over all attempts in order.
+func c13FrameExtras(p *c13Pending, cfg *c13DumpCfg, attempts []c13GAttempt, counted, split func()) {
+	var model []string
+	for _, at := range attempts {
+		at := at
+		if at.payload == "" {
+			continue
+		}
+		sizes := make([]int, len(at.frames))
+		for i, f := range at.frames {
+			sizes[i] = len(f)
+		}
+		if len(at.frames) > 1 {
+			split()
+		}
+		p.extra = append(p.extra, c13Extra{
+			line: fmt.Sprintf("c13gdata 16384 %s %s", verifh.Hex(at.payload), verifh.IntList(sizes)),
+			check: func(ans string) string {
+				fr := verifh.UnHexList(ans)
+				model = append(model, fr...)
+				if fmt.Sprint(fr) != fmt.Sprint(at.frames) {
+					return fmt.Sprintf("DATA frames received %v are not the model's cut %v of the %d-byte upload", c13Lens(at.frames), c13Lens(fr), len(at.payload))
+				}
+				return ""
+			},
+		})
+	}
+	if len(p.extra) == 0 {
+		return
+	}
+	for _, d := range []*c13DumperCfg{cfg.cl, cfg.rq} {
+		d := d
+		if d == nil || d.routing != 1 || !d.flags[1] || (d.base != 10 && d.base != 20) {
+			continue
+		}
+		counted()
+		p.extra = append(p.extra, c13Extra{
+			line: "c13gdata 16384 - -",
+			check: func(string) string {
+				got := p.log.of(d.base + 4)
+				if fmt.Sprint(got) != fmt.Sprint(model) {
+					return fmt.Sprintf("request-body writer %d was handed %d writes of %v bytes, the DATA frames sent were %v: not one dump call per frame with that frame's payload", d.base+4, len(got), c13Lens(got), c13Lens(model))
+				}
+				return ""
+			},
+		})
+	}
 }
 
 func c13GuardG(d time.Duration, f func() c13GRunOut) (c13GRunOut, bool) {
